@@ -102,7 +102,7 @@ def handle (args : List String) (obs : String) : String :=
     let results := (phases.zip obsPhases).map fun (ph, ob) =>
       match ph.splitOn "@", ob.splitOn "#" with
       | [logger, progsS], [resS, evS] =>
-        let sink := if logger == "A" then Sink.installed true else if logger == "D" then .installed false else .none
+        let sink := if logger == "A" ∨ logger == "S" then Sink.installed true else if logger == "D" then .installed false else .none
         match (progsS.splitOn "/").mapM (fun p => (splitNonEmpty p ",").mapM parseOp) with
         | none => ("bad-case", ["bad-case"])
         | some progs =>
